@@ -44,4 +44,5 @@ for base, x, y, *rest in cases:
                 continue
             res.append([o, code(fn, c(x), c(y))])
     out.append([base, x, y, res])
+sys.set_int_max_str_digits(0)      # only for printing the results: the DSL above ran under the interpreter's default limit
 json.dump(out, sys.stdout)
